@@ -28,9 +28,10 @@ structure Ok (P : Pert) (cfg : Cfg) (D : String) : Prop where
 theorem Ok.fresh {P : Pert} {cfg : Cfg} {D : String} (h : Ok P cfg D) (site : String) (hs : site ≠ sweepSite) : P.fresh site :=
   fun x hx e => hs (e ▸ h.calls x hx)
 
-/-- The Hyperlane default hook does not charge a denomination that was perturbed on the orbiter account. -/
+/-- No Hyperlane hook — the mailbox default, or any other one a payload may name — charges a denomination that was
+perturbed on the orbiter account. -/
 def IgpOk (P : Pert) (cfg : Cfg) (e : ExtState) : Prop :=
-  ∀ idenom dom r p o, e.hypHook = .igp idenom dom r p o → P.δ cfg.orbAddr idenom = 0
+  ∀ idenom dom r p o, .igp idenom dom r p o ∈ e.hooks → P.δ cfg.orbAddr idenom = 0
 
 theorem comm_cctpDeposit (P : Pert) (cfg : Cfg) (c : Ctx) (amount : Int) (domain : Nat) (mint caller : Bytes) (tok : String)
     (h1 : P.δ cfg.orbAddr tok = 0) (h2 : P.δ cfg.cctpModule tok = 0) (h3 : P.δ cfg.ftfModule tok = 0) :
@@ -66,11 +67,16 @@ theorem comm_warp (P : Pert) (cfg : Cfg) (c : Ctx) (token hook : Bytes) (domain 
     | none => rfl
     | some rgas =>
       simp only [Res.bind_ok, Res.map_ite', Res.bind_panic, Res.bind_err, Res.map_panic', Res.map_err']
-      cases hh : c.ext.hypHook with
-      | noop => simp only [Res.pure_eq, Res.map_ok']
-      | igp idenom idomain rate price overhead =>
-        have hz := higp idenom idomain rate price overhead hh
-        simp only [Pert.send, hz, Res.map_ite', Res.map_err']
+      cases hk : hookFor c.ext hook with
+      | err e => rfl
+      | panic e => rfl
+      | ok hkv =>
+        simp only [Res.bind_ok]
+        cases hkv with
+        | noop => simp only [Res.pure_eq, Res.map_ok']
+        | igp idenom idomain rate price overhead =>
+          have hz := higp idenom idomain rate price overhead (hookFor_mem hk)
+          simp only [Pert.send, hz, Res.map_ite', Res.map_err']
 
 
 theorem ne_sweep_1 : "bank.SendCoins" ≠ sweepSite := by decide
@@ -499,7 +505,7 @@ theorem hook_result {cfg : Cfg} {π : OneofOrder} (hd : Distinct cfg) {o : OrbSt
       · simp [hdd]
 
 
-theorem ics20_hook_same {cfg : Cfg} {c c' : Ctx} {pkt : Packet} (h : ics20Recv cfg c pkt = .ok c') : c'.ext.hypHook = c.ext.hypHook := by
+theorem ics20_hook_same {cfg : Cfg} {c c' : Ctx} {pkt : Packet} (h : ics20Recv cfg c pkt = .ok c') : c'.ext.hooks = c.ext.hooks := by
   unfold ics20Recv at h
   cases hdd : decFTPD pkt.data with
   | none => simp [hdd] at h
@@ -523,7 +529,7 @@ theorem ics20_hook_same {cfg : Cfg} {c c' : Ctx} {pkt : Packet} (h : ics20Recv c
           · cases h
           · simp only [Res.pure_eq, Res.ok.injEq] at h
             subst h
-            simp only
+            simp only [ExtState.hooks]
             rw [send_ext h1]
         · split at h
           · cases h
@@ -540,7 +546,7 @@ theorem c11_extra_coins_irrelevant (cfg : Cfg) (hd : Distinct cfg) (π : OneofOr
     (c1 c1' : Ctx)
     (hh : beforeTransferHook (appWiring cfg π) noFaults w.orb (ctxOf w) t p = .ok c1)
     (hh' : beforeTransferHook (appWiring cfg π) noFaults w.orb (ctxOf (withExtra cfg w ε)) t p = .ok c1')
-    (higp : ∀ idenom dom r pr ov, w.ext.hypHook = .igp idenom dom r pr ov → idenom = t.dstDenom ∨ ε idenom = 0) :
+    (higp : ∀ idenom dom r pr ov, .igp idenom dom r pr ov ∈ w.ext.hooks → idenom = t.dstDenom ∨ ε idenom = 0) :
     (ibcRecv (appWiring cfg π) noFaults (withExtra cfg w ε) pkt).ack = (ibcRecv (appWiring cfg π) noFaults w pkt).ack ∧
     (ibcRecv (appWiring cfg π) noFaults (withExtra cfg w ε) pkt).orb = (ibcRecv (appWiring cfg π) noFaults w pkt).orb ∧
     ((ibcRecv (appWiring cfg π) noFaults w pkt).ack.isSuccess = true →
@@ -595,7 +601,7 @@ theorem c11_extra_coins_irrelevant (cfg : Cfg) (hd : Distinct cfg) (π : OneofOr
     · intro d; simp [P₂, extraAfter, hd.transfer.1, hd.transfer.2]
     · intro pp cc d; simp [P₂, extraAfter, (hd.escrow pp cc).1, (hd.escrow pp cc).2]
   have igp1 : ∀ e, IgpOk P₁ cfg e := fun _ _ _ _ _ _ _ => rfl
-  have igp2 : ∀ e : ExtState, e.hypHook = w.ext.hypHook → IgpOk P₂ cfg e := by
+  have igp2 : ∀ e : ExtState, e.hooks = w.ext.hooks → IgpOk P₂ cfg e := by
     intro e he idenom dom r pr ov hi
     rw [he] at hi
     rcases higp idenom dom r pr ov hi with h | h
@@ -629,7 +635,7 @@ theorem c11_extra_coins_irrelevant (cfg : Cfg) (hd : Distinct cfg) (π : OneofOr
           | panic e => exact ⟨rfl, rfl, fun h => by simp [Res.map, Ack.isSuccess] at h⟩
           | ok c2 =>
             simp only [Res.map]
-            have hhook2 : c2.ext.hypHook = w.ext.hypHook := by
+            have hhook2 : c2.ext.hooks = w.ext.hooks := by
               unfold wrappedApp at hw
               obtain ⟨cx, hcx, hw⟩ := Res.bind_eq_ok.mp hw
               rw [ics20_hook_same hw, call_ext hcx]
